@@ -71,6 +71,17 @@ type Target struct {
 	CondNth   int    `json:"cond_nth,omitempty"`
 	// ArgOf: translate only argument Arg of the Nth (0-based, source order) call of Callee.
 	ArgOf *ArgOf `json:"arg_of,omitempty"`
+	// Acts: statement (normalised text, or "~prefix") -> Int action code. A matching statement is not
+	// translated; its code is appended to the action trace `acts_ : List Int`, which is returned after
+	// the written fields. Every entry must match. See ext2.go.
+	Acts map[string]string `json:"acts,omitempty"`
+	// Errs: opaque-defining statement (normalised text) -> "var:name": `var != nil` after that statement is
+	// the Bool parameter `name` (so that several `err`s of one function stay apart). See ext2.go.
+	Errs map[string]string `json:"errs,omitempty"`
+	// TableOf: translate the nested map composite literal assigned by the unique statement whose text starts
+	// with this marker into `List (List Int × List Int)` rows (keys, cells). Symbols: cell text -> Int code.
+	TableOf string            `json:"table_of,omitempty"`
+	Symbols map[string]string `json:"symbols,omitempty"`
 }
 
 type ArgOf struct {
@@ -82,6 +93,8 @@ type ArgOf struct {
 type CallFact struct {
 	File   string   `json:"file"`
 	Callee []string `json:"callee"`
+	// Func: when set, only the calls inside this function ("Name" or "Recv.Name") are listed.
+	Func string `json:"func,omitempty"`
 }
 
 type Config struct {
@@ -99,10 +112,14 @@ type tr struct {
 	written map[string]bool // field paths written
 	funcs   map[string]string
 	recv    string
-	info    map[string]*fnInfo // translated functions callable from later targets
-	dir     string             // package directory (for constants)
-	flat    int                // >0 while a continuation is being duplicated (early returns)
-	used    map[string]int     // exprs / skip entries that were hit
+	info    map[string]*fnInfo  // translated functions callable from later targets
+	dir     string              // package directory (for constants)
+	flat    int                 // >0 while a continuation is being duplicated (early returns)
+	used    map[string]int      // exprs / skip entries that were hit
+	alias   map[string]string   // opaque local -> Bool parameter standing for `local != nil` (errs)
+	lconst  map[string]ast.Expr // constants declared inside the function
+	arity   int                 // number of written fields at the last return translated (-1: none yet)
+	clash   bool                // two returns saw different sets of written fields
 }
 
 func fail(format string, a ...any) {
@@ -118,6 +135,9 @@ func leanType(gt string) string {
 	}
 	if isEnum(gt) {
 		return "Int"
+	}
+	if gt == actsType {
+		return "List Int"
 	}
 	fail("unsupported type %q", gt)
 	return ""
@@ -215,8 +235,14 @@ func (x *tr) expr(e ast.Expr) (string, string) {
 		if c, ok := x.t.Consts[v.Name]; ok {
 			return "(" + c + " : Int)", ""
 		}
+		if a, ok := x.alias[v.Name]; ok && x.t.Types[v.Name] == "bool" { // errs: this definition's own parameter
+			return x.useVar(a)
+		}
 		if _, local := x.types[v.Name]; !local {
 			if _, typed := x.t.Types[v.Name]; !typed {
+				if c, ok := x.localConst(v.Name); ok {
+					return "(" + c + " : Int)", ""
+				}
 				if c, ok := goConst(x.dir, v.Name); ok {
 					return "(" + c + " : Int)", ""
 				}
@@ -346,6 +372,10 @@ func (x *tr) expr(e ast.Expr) (string, string) {
 // assigned collects the paths assigned inside stmts (for if-merges).
 func (x *tr) assigned(stmts []ast.Stmt, out map[string]bool) {
 	for _, s := range stmts {
+		if _, ok := x.actOf(s); ok {
+			out[actsVar] = true
+			continue
+		}
 		switch v := s.(type) {
 		case *ast.AssignStmt:
 			for _, l := range v.Lhs {
@@ -476,8 +506,16 @@ func (x *tr) finalResult(ret string) string {
 	if ret != "" {
 		parts = append(parts, ret)
 	}
+	if x.arity >= 0 && x.arity != len(w) {
+		x.clash = true // a field is written after an earlier return: redo with the full set (see main)
+	}
+	x.arity = len(w)
 	for _, p := range w {
-		parts = append(parts, leanName(p))
+		n, _ := x.useVar(p)
+		parts = append(parts, n)
+	}
+	if len(x.t.Acts) > 0 {
+		parts = append(parts, actsVar)
 	}
 	for _, r := range x.t.Result {
 		n, _ := x.useVar(r)
@@ -510,11 +548,22 @@ func (x *tr) stmts(list []ast.Stmt, ind string, end func(ind string) string) str
 	if x.skipped(s) {
 		return x.stmts(rest, ind, end)
 	}
+	if spec, ok := x.actOf(s); ok {
+		return ind + "let " + actsVar + " := " + actsVar + " ++ [" + x.actCode(spec) + "]\n" + x.stmts(rest, ind, end)
+	}
 	if x.onlyDefinesOpaque(s) {
 		x.registerOpaque()
+		x.bindErr(s)
 		return x.stmts(rest, ind, end)
 	}
 	switch v := s.(type) {
+	case *ast.IncDecStmt:
+		tok := token.ADD_ASSIGN
+		if v.Tok == token.DEC {
+			tok = token.SUB_ASSIGN
+		}
+		one := &ast.BasicLit{Kind: token.INT, Value: "1", ValuePos: v.Pos()}
+		return x.stmts(append([]ast.Stmt{&ast.AssignStmt{Lhs: []ast.Expr{v.X}, Tok: tok, TokPos: v.TokPos, Rhs: []ast.Expr{one}}}, rest...), ind, end)
 	case *ast.SwitchStmt:
 		return x.stmts(append(x.desugarSwitch(v), rest...), ind, end)
 	case *ast.ReturnStmt:
@@ -611,11 +660,18 @@ func (x *tr) stmts(list []ast.Stmt, ind string, end func(ind string) string) str
 		}
 		return ind + "let " + name + " := " + rhs + "\n" + x.stmts(rest, ind, end)
 	case *ast.IfStmt:
+		var bound []string
 		if v.Init != nil {
 			if !x.onlyDefinesOpaque(v.Init) {
 				fail("%s: unsupported if-init %s", x.t.Func, x.text(v.Init))
 			}
 			x.registerOpaque()
+			bound = x.bindErr(v.Init)
+		}
+		unbind := func() { // the if-init's variables go out of scope with the if
+			for _, b := range bound {
+				delete(x.alias, b)
+			}
 		}
 		cond, _ := x.expr(v.Cond)
 		var el []ast.Stmt
@@ -639,6 +695,7 @@ func (x *tr) stmts(list []ast.Stmt, ind string, end func(ind string) string) str
 			}
 			sort.Strings(vars)
 			if len(vars) == 0 {
+				unbind()
 				return x.stmts(rest, ind, end)
 			}
 			for _, p := range vars {
@@ -662,6 +719,7 @@ func (x *tr) stmts(list []ast.Stmt, ind string, end func(ind string) string) str
 				return out
 			}
 			out := ind + "let " + tuple + " := (\n" + ind + "  if " + cond + " then\n" + branch(v.Body.List) + "\n" + ind + "  else\n" + branch(el) + ")\n"
+			unbind()
 			return out + x.stmts(rest, ind, end)
 		}
 		if thenRet && (v.Else == nil || elseRet) {
@@ -670,13 +728,18 @@ func (x *tr) stmts(list []ast.Stmt, ind string, end func(ind string) string) str
 			x.restoreTypes(saved)
 			var elseS string
 			if v.Else == nil {
+				unbind()
 				elseS = x.stmts(rest, ind+"  ", end)
 			} else {
 				elseS = x.stmts(el, ind+"  ", end)
+				unbind()
 			}
 			return ind + "if " + cond + " then\n" + thenS + "\n" + ind + "else\n" + elseS
 		}
 		// early return in only some branches: the continuation is duplicated into both branches
+		if len(bound) > 0 {
+			fail("%s: errs binding in the init of an if with a partial early return: %s", x.t.Func, x.text(v.Init))
+		}
 		x.flat++
 		saved := x.snapshotTypes()
 		cont := func(i string) string {
@@ -694,7 +757,7 @@ func (x *tr) stmts(list []ast.Stmt, ind string, end func(ind string) string) str
 	case *ast.ExprStmt:
 		// allow logging calls: log.X(...), metrics.X
 		if c, ok := v.X.(*ast.CallExpr); ok {
-			if p, ok := pathOf(c.Fun); ok && (strings.HasPrefix(p, "log.") || strings.HasPrefix(p, "metrics.")) {
+			if p, ok := pathOf(c.Fun); ok && (strings.HasPrefix(p, "log.") || strings.HasPrefix(p, "metrics.") || strings.HasSuffix(p, ".log")) {
 				return x.stmts(rest, ind, end)
 			}
 		}
@@ -803,115 +866,135 @@ func main() {
 			if t.Types == nil {
 				t.Types = map[string]string{}
 			}
-			x := &tr{fset: fset, src: src, t: t, types: map[string]string{}, ptype: map[string]string{}, written: map[string]bool{}, funcs: funcs,
-				info: info, dir: filepath.Dir(path), used: map[string]int{}}
-			body := fd.Body.List
-			sliced := t.FromMarker != "" || t.CondOf != "" || t.ArgOf != nil
-			var single ast.Expr // cond_of / arg_of: one expression instead of a body
-			if t.CondOf != "" {
-				single = x.findIfCond(fd, t.CondOf, max(t.CondCount, 1), t.CondNth)
-			} else if t.ArgOf != nil {
-				single = x.findCallArg(fd, *t.ArgOf)
-			} else if t.FromMarker != "" {
-				sel := []ast.Stmt{}
-				var lists [][]ast.Stmt
-				ast.Inspect(fd.Body, func(n ast.Node) bool {
-					switch v := n.(type) {
-					case *ast.BlockStmt:
-						lists = append(lists, v.List)
-					case *ast.CaseClause:
-						lists = append(lists, v.Body)
-					case *ast.CommClause:
-						lists = append(lists, v.Body)
-					}
-					return true
-				})
-				for _, l := range lists {
-					on := false
-					for _, st := range l {
-						tx := strings.TrimSpace(x.text(st))
-						if !on && strings.HasPrefix(tx, t.FromMarker) {
-							on = true
-						} else if on && t.ToMarker != "" && strings.HasPrefix(tx, t.ToMarker) {
-							break
+			// A return translated before a later field write would have a shorter tuple: when that happens the
+			// body is translated a second time with the set of written fields of the first pass known up front.
+			seed := map[string]bool{}
+			for pass := 0; ; pass++ {
+				x := &tr{fset: fset, src: src, t: t, types: map[string]string{}, ptype: map[string]string{}, written: seed, funcs: funcs,
+					info: info, dir: filepath.Dir(path), used: map[string]int{}, alias: map[string]string{}, lconst: localConsts(fd), arity: -1}
+				body := fd.Body.List
+				sliced := t.FromMarker != "" || t.CondOf != "" || t.ArgOf != nil || t.TableOf != ""
+				var single ast.Expr // cond_of / arg_of: one expression instead of a body
+				if t.CondOf != "" {
+					single = x.findIfCond(fd, t.CondOf, max(t.CondCount, 1), t.CondNth)
+				} else if t.ArgOf != nil {
+					single = x.findCallArg(fd, *t.ArgOf)
+				} else if t.FromMarker != "" {
+					sel := []ast.Stmt{}
+					var lists [][]ast.Stmt
+					ast.Inspect(fd.Body, func(n ast.Node) bool {
+						switch v := n.(type) {
+						case *ast.BlockStmt:
+							lists = append(lists, v.List)
+						case *ast.CaseClause:
+							lists = append(lists, v.Body)
+						case *ast.CommClause:
+							lists = append(lists, v.Body)
+						}
+						return true
+					})
+					for _, l := range lists {
+						on := false
+						for _, st := range l {
+							tx := strings.TrimSpace(x.text(st))
+							if !on && strings.HasPrefix(tx, t.FromMarker) {
+								on = true
+							} else if on && t.ToMarker != "" && strings.HasPrefix(tx, t.ToMarker) {
+								break
+							}
+							if on {
+								sel = append(sel, st)
+							}
 						}
 						if on {
-							sel = append(sel, st)
+							break
 						}
 					}
-					if on {
-						break
+					if len(sel) == 0 {
+						fail("%s: from_marker %q not found", t.Func, t.FromMarker)
 					}
-				}
-				if len(sel) == 0 {
-					fail("%s: from_marker %q not found", t.Func, t.FromMarker)
-				}
-				body = sel
-			} else {
-				// declared parameters in order
-				for _, fl := range fd.Type.Params.List {
-					ty := x.text(fl.Type)
-					for _, n := range fl.Names {
-						if !supported(ty) {
-							continue
+					body = sel
+				} else {
+					// declared parameters in order
+					for _, fl := range fd.Type.Params.List {
+						ty := x.text(fl.Type)
+						for _, n := range fl.Names {
+							if !supported(ty) {
+								continue
+							}
+							x.types[n.Name] = ty
+							x.params = append(x.params, n.Name)
+							x.ptype[n.Name] = ty
 						}
-						x.types[n.Name] = ty
-						x.params = append(x.params, n.Name)
-						x.ptype[n.Name] = ty
 					}
 				}
-			}
-			var bodyLean string
-			if single != nil {
-				e, _ := x.expr(single)
-				bodyLean = "  " + e
-			} else {
-				bodyLean = x.stmts(body, "  ", func(i string) string {
-					if t.End != "" {
-						return i + x.finalResult("("+t.End+" : Int)")
+				var bodyLean string
+				if t.TableOf != "" {
+					bodyLean = x.table(fd)
+				} else if single != nil {
+					e, _ := x.expr(single)
+					bodyLean = "  " + e
+				} else {
+					if len(t.Acts) > 0 {
+						x.types[actsVar] = actsType
+						bodyLean = "  let " + actsVar + " : List Int := []\n"
 					}
-					return i + x.finalResult("")
-				})
-			}
-			x.checkUsed()
-			// parameters: declared first (in order), then discovered (sorted for stability)
-			declared := 0
-			if !sliced {
-				for _, fl := range fd.Type.Params.List {
-					if supported(x.text(fl.Type)) {
-						declared += len(fl.Names)
+					bodyLean +=
+						x.stmts(body, "  ", func(i string) string {
+							if t.End != "" {
+								return i + x.finalResult("("+t.End+" : Int)")
+							}
+							return i + x.finalResult("")
+						})
+				}
+				x.checkUsed()
+				if x.clash {
+					if pass > 0 {
+						fail("%s: returns with different sets of written fields", t.Func)
+					}
+					seed = x.written
+					continue
+				}
+				// parameters: declared first (in order), then discovered (sorted for stability)
+				declared := 0
+				if !sliced {
+					for _, fl := range fd.Type.Params.List {
+						if supported(x.text(fl.Type)) {
+							declared += len(fl.Names)
+						}
 					}
 				}
-			}
-			disc := append([]string{}, x.params[declared:]...)
-			sort.Strings(disc)
-			ordered := append(append([]string{}, x.params[:declared]...), disc...)
-			var ps []string
-			for _, p := range ordered {
-				ps = append(ps, fmt.Sprintf("(%s : %s)", leanName(p), leanType(x.ptype[p])))
-			}
-			fmt.Fprintf(&out, "/-- from %s : %s; params %v; returns ret × written fields %v × results %v -/\n", t.File, t.Func, ordered, x.writtenList(), t.Result)
-			fmt.Fprintf(&out, "def %s %s :=\n%s\n\n", t.Lean, strings.Join(ps, " "), bodyLean)
-			key := t.Func
-			if i := strings.Index(key, "."); i >= 0 {
-				key = key[i+1:]
-			}
-			funcs[key] = t.Lean
-			ret := "int64"
-			if fd.Type.Results != nil && len(fd.Type.Results.List) == 1 {
-				ret = x.text(fd.Type.Results.List[0].Type)
-			}
-			funcs[key+"#ret"] = ret
-			if !sliced {
-				fi := &fnInfo{lean: t.Lean, ret: ret, ordered: ordered, formal: map[string]int{}}
-				k := 0
-				for _, fl := range fd.Type.Params.List {
-					for _, n := range fl.Names {
-						fi.formal[n.Name] = k
-						k++
-					}
+				disc := append([]string{}, x.params[declared:]...)
+				sort.Strings(disc)
+				ordered := append(append([]string{}, x.params[:declared]...), disc...)
+				var ps []string
+				for _, p := range ordered {
+					ps = append(ps, fmt.Sprintf("(%s : %s)", leanName(p), leanType(x.ptype[p])))
 				}
-				info[key] = fi
+				fmt.Fprintf(&out, "/-- from %s : %s; params %v; returns ret × written fields %v × results %v -/\n", t.File, t.Func, ordered, x.writtenList(), t.Result)
+				fmt.Fprintf(&out, "def %s %s :=\n%s\n\n", t.Lean, strings.Join(ps, " "), bodyLean)
+				key := t.Func
+				if i := strings.Index(key, "."); i >= 0 {
+					key = key[i+1:]
+				}
+				funcs[key] = t.Lean
+				ret := "int64"
+				if fd.Type.Results != nil && len(fd.Type.Results.List) == 1 {
+					ret = x.text(fd.Type.Results.List[0].Type)
+				}
+				funcs[key+"#ret"] = ret
+				if !sliced {
+					fi := &fnInfo{lean: t.Lean, ret: ret, ordered: ordered, formal: map[string]int{}}
+					k := 0
+					for _, fl := range fd.Type.Params.List {
+						for _, n := range fl.Names {
+							fi.formal[n.Name] = k
+							k++
+						}
+					}
+					info[key] = fi
+				}
+				break
 			}
 		}()
 	}
@@ -932,7 +1015,16 @@ func main() {
 			errs = append(errs, err.Error())
 			continue
 		}
-		ast.Inspect(f, func(n ast.Node) bool {
+		var scope ast.Node = f
+		if cf.Func != "" {
+			fd := findFunc(f, cf.Func)
+			if fd == nil {
+				errs = append(errs, fmt.Sprintf("calls: function %s not found in %s", cf.Func, cf.File))
+				continue
+			}
+			scope = fd.Body
+		}
+		ast.Inspect(scope, func(n ast.Node) bool {
 			c, ok := n.(*ast.CallExpr)
 			if !ok {
 				return true
